@@ -236,3 +236,12 @@ spec fn extents_cover_batch(extents: Seq<(u64, usize)>, w: Seq<PreparedWrite>, b
 fn flush_pending_deletions(q: &RetirementQueue, disk_io: &DiskLock, free_space: &FreeSpaceLock, stats: &Statistics, format: &FormatAny) -> Result<bool> {
     unimplemented!()
 }
+
+// members of a retirement group are adjacent on the device: each starts where the previous one ends
+pub open spec fn adjacent(a: WriteEntry, b: WriteEntry, format: &FormatAny) -> bool {
+    b.record.sector.val() as int == a.record.sector.val() as int + extent_blocks(&a, format)
+}
+
+pub open spec fn contiguous(g: Seq<WriteEntry>, format: &FormatAny) -> bool {
+    forall|i: int, j: int| 0 <= i && j == i + 1 && j < g.len() ==> #[trigger] adjacent(g[i], g[j], format)
+}
